@@ -9,6 +9,10 @@
      ingredient.rs add_stream_internal: Store::get_manifest_labels_for_ocsp (builder.certificate_status_fetch with
                 builder.certificate_status_should_override = Some(false)) -> get_ocsp_response_ders
      cose_sign / Signer::send_timestamp_request (only when the signer has a time_authority_url)
+     builder.rs Builder::sign -> maybe_add_timestamp (only when the signer has a time_authority_url; early exit unless
+                builder.auto_timestamp_assertion.enabled (no explicit labels in the modelled calls); claims selected by
+                fetch_scope, minus already time-stamped ones when skip_existing; one RFC 3161 request per remaining
+                claim through the Context's resolver, `?` on failure)
    No proofs here. *)
 From Coq Require Import List NArith Bool.
 Import ListNotations.
@@ -17,7 +21,10 @@ Open Scope N_scope.
 Record cfg := C {
   rmf : bool;      (* verify.remote_manifest_fetch *)
   ocspf : bool;    (* verify.ocsp_fetch *)
-  csf : bool       (* builder.certificate_status_fetch = "all" and certificate_status_should_override = false *)
+  csf : bool;      (* builder.certificate_status_fetch = "all" and certificate_status_should_override = false *)
+  ats_on : bool;   (* builder.auto_timestamp_assertion.enabled *)
+  ats_skip : bool; (* builder.auto_timestamp_assertion.skip_existing *)
+  ats_parent : bool (* builder.auto_timestamp_assertion.fetch_scope = "parent" (otherwise "all") *)
 }.
 
 Inductive akind :=
@@ -36,7 +43,11 @@ Record asset := A { kind : akind; url : N }.
 Inductive signer := SNoTsa | STsa.
 Inductive opk := OpRead | OpIngredient | OpSign.     (* OpSign: import the asset as an ingredient, then sign *)
 
-Inductive req := RManifest (u : N) | ROcsp | RTsa.
+Inductive req :=
+  | RManifest (u : N)
+  | ROcsp
+  | RTsa        (* time-stamp of the new claim signature: Signer::send_timestamp_request *)
+  | RTsaIng.    (* time-stamp of an ingredient manifest: Builder::maybe_add_timestamp, through the Context's resolver *)
 
 Inductive outcome :=
   | OOk
@@ -44,6 +55,7 @@ Inductive outcome :=
   | OErrNoJumbf               (* Error::JumbfNotFound *)
   | OErrFetch                 (* Error::RemoteManifestFetch *)
   | OErrTsa                   (* the time-stamp request failed (the test listener answers 404) *)
+  | OErrTsaIng                (* the ingredient time-stamp request failed (the test resolver answers 404) *)
   | OUnmodelled.              (* outcome not transcribed (signing with an inaccessible-manifest ingredient) *)
 
 Definition has_embedded (k : akind) : bool :=
@@ -60,6 +72,11 @@ Definition stapled (k : akind) : bool :=
 Definition staple_settles (k : akind) : bool := match k with AEmbeddedStapled => true | _ => false end.
 (* claims of the asset's store that are verified (active manifest + ingredient manifests) *)
 Definition nclaims (k : akind) : nat := match k with AEmbeddedStapledUnusable => 2%nat | _ => 1%nat end.
+
+(* the active (parent) claim / every claim of the asset's manifest store already carries a time stamp *)
+Definition ts_parent (k : akind) : bool :=
+  match k with AEmbedded | AEmbeddedAia | AEmbeddedStapled | AEmbeddedStapledUnusable | ARemoteOnlyAia => true | _ => false end.
+Definition ts_all (k : akind) : bool := ts_parent k.   (* the fixtures are uniform; assets built by the harness have none *)
 
 Inductive loaded := LEmbedded | LRemote | LErr (o : outcome).
 
@@ -92,14 +109,27 @@ Definition ingredient (c : cfg) (a : asset) (served : bool) : list req * outcome
   | (rq, _) => (rq ++ ocsp_check c (kind a) ++ status_fetch c (kind a), OOk, true)
   end.
 
+(* Builder::maybe_add_timestamp for the imported (parentOf) ingredient; the resolver refuses, so the first
+   request ends the operation *)
+Definition auto_timestamp (c : cfg) (k : akind) (has_claim : bool) : list req :=
+  if negb (ats_on c) then []                                  (* early exit *)
+  else if negb has_claim then []                              (* no claim ingredients / no parent claim *)
+  else
+    let already := if ats_parent c then ts_parent k else ts_all k in
+    if ats_skip c && already then [] else [RTsaIng].
+
 Definition sign (c : cfg) (a : asset) (s : signer) (served : bool) : list req * outcome :=
   let '(rq, _, has_claim) := ingredient c a served in
   if negb has_claim && has_ref (kind a) then (rq, OUnmodelled)   (* Builder::to_claim fails (AssertionEncoding) on the
                                                                    ingredient recorded as manifest.inaccessible *)
   else
     match s with
-    | STsa => (rq ++ [RTsa], OErrTsa)
-    | SNoTsa =>
+    | STsa =>
+        match auto_timestamp c (kind a) has_claim with
+        | [] => (rq ++ [RTsa], OErrTsa)
+        | t => (rq ++ t, OErrTsaIng)
+        end
+    | SNoTsa =>                                  (* no time_authority_url: maybe_add_timestamp is not called *)
         (* verify.verify_after_sign: the new store is verified, including the imported ingredient claim *)
         (rq ++ (if has_claim then ocsp_check c (kind a) else []), OOk)
     end.
@@ -113,8 +143,8 @@ Definition requests (c : cfg) (a : asset) (s : signer) (o : opk) (served : bool)
 
 (* ---- the finite domain, spelled out ---- *)
 Definition all_cfg : list cfg :=
-  [C false false false; C false false true; C false true false; C false true true;
-   C true false false; C true false true; C true true false; C true true true].
+  flat_map (fun a => flat_map (fun b => flat_map (fun d => flat_map (fun e => flat_map (fun f =>
+    map (fun g => C a b d e f g) [false; true]) [false; true]) [false; true]) [false; true]) [false; true]) [false; true].
 Definition all_kinds : list akind :=
   [AEmbedded; ARemoteOnly; ARemoteEmbedded; ANone; AEmbeddedAia; AEmbeddedStapled; ARemoteOnlyAia;
    AEmbeddedStapledUnusable].
@@ -130,6 +160,7 @@ Definition domain : list point :=
 Definition is_manifest (r : req) := match r with RManifest _ => true | _ => false end.
 Definition is_ocsp (r : req) := match r with ROcsp => true | _ => false end.
 Definition is_tsa (r : req) := match r with RTsa => true | _ => false end.
+Definition is_tsa_ing (r : req) := match r with RTsaIng => true | _ => false end.
 Definition akind_eqb (a b : akind) : bool :=
   match a, b with
   | AEmbedded, AEmbedded | ARemoteOnly, ARemoteOnly | ARemoteEmbedded, ARemoteEmbedded | ANone, ANone
@@ -146,9 +177,10 @@ Definition gated (u : N) (p : point) : bool :=
   && forallb (fun r => match r with RManifest v => v =? u | _ => true end) rq
   && implb (existsb is_ocsp rq) (ocspf c || csf c)
   && implb (existsb is_tsa rq) (match s with STsa => true | SNoTsa => false end)
+  && implb (existsb is_tsa_ing rq) (ats_on c && match s with STsa => true | SNoTsa => false end)
   && implb (negb (rmf c) && remote_only k && match o with OpRead => true | _ => false end)
            (match out with OErrRemoteUrl v => (v =? u) && (match rq with [] => true | _ => false end) | _ => false end).
 
 (* what the correspondence run prints *)
 Definition show (x : list req * outcome) : list N * outcome :=
-  (map (fun r => match r with RManifest _ => 0 | ROcsp => 1 | RTsa => 2 end) (fst x), snd x).
+  (map (fun r => match r with RManifest _ => 0 | ROcsp => 1 | RTsa => 2 | RTsaIng => 3 end) (fst x), snd x).
